@@ -162,6 +162,33 @@ static void answer(struct cmd *c, int rc)
 	drv_end();
 }
 
+/* text source handed to mpt_object_set_property */
+class text_src : public mpt::convertable
+{
+public:
+	text_src(const char *t) : _txt(t) { }
+	int convert(mpt::type_t type, void *ptr) __MPT_OVERRIDE
+	{
+		if (type == 's') {
+			if (ptr) *static_cast<const char **>(ptr) = _txt;
+			return (_txt && *_txt) ? 's' : 0;
+		}
+		return mpt::BadType;
+	}
+private:
+	const char *_txt;
+};
+static int set_by_property(struct lobj *l, const char *name, const char *text, int reset)
+{
+	mpt::identifier id;
+	text_src src(text);
+	if (name && !id.set_name(name)) {
+		return mpt::BadOperation;
+	}
+	return mpt::mpt_object_set_property(l->o, mpt::TraverseChange | mpt::TraverseDefault | mpt::TraverseEmpty,
+	                                    name ? &id : 0, reset ? 0 : &src);
+}
+
 static int do_set(struct lobj *l, const char *name, const struct cmd *c)
 {
 	const char *f = drv_raw(c, "f");
@@ -171,6 +198,21 @@ static int do_set(struct lobj *l, const char *name, const struct cmd *c)
 	if (!f) f = "null";
 	if (!strcmp(f, "null")) {
 		rc = l->o->set_property(name, 0);
+	}
+	else if (!strcmp(f, "pnull")) {
+		rc = set_by_property(l, name, 0, 1);
+	}
+	else if (!strcmp(f, "pnum") && nn >= 2) {
+		char buf[64];
+		const char *sty = drv_raw(c, "sty");
+		render_num(buf, sizeof(buf), twice(n), sty ? sty : "dec");
+		rc = set_by_property(l, name, buf, 0);
+	}
+	else if (!strcmp(f, "ptxt") || !strcmp(f, "prle")) {
+		char *t = f[1] == 't' ? arg_text(c, "c") : arg_rle(c, "c");
+		rc = set_by_property(l, name, t, 0);
+		memset(t, 'Q', strlen(t));
+		free(t);
 	}
 	else if (!strcmp(f, "num") && nn >= 2) {
 		char buf[64];
